@@ -1346,6 +1346,77 @@ def run_bound_py(ctx, d14, cfg, rng):
 
 # ------------------------------------------------------------------ entry points
 
+def multitask_configs(ctx):
+    rng = ctx.rng("multitask-configs")
+    out = []
+    for rep in range(1 if ctx.tier == "quick" else 5):
+        # non-default task dimensions are generated with coinciding batch sizes only (the case in which a sum over the wrong
+        # dimension is silent); rectangular batch shapes with a non-default task_dim are not generated
+        for task_dim, shape in ((-1, (3,)), (-1, (2, 3)), (-1, (2, 2)), (-2, (2, 2)), (-2, (3, 3)), (-3, (2, 2, 2)),
+                                (0, (2, 2)), (1, (2, 2)), (0, (3, 3))):
+            out.append({"task_dim": task_dim, "shape": list(shape), "n": rng.randint(2, 4), "M": rng.randint(2, 3),
+                        "N": rng.choice([None, 7, 40]), "strategy": "IndependentMultitask"})
+    return out
+
+
+def run_multitask(ctx, d14, d15, cfg, rng, replay_only=None):
+    """IndependentMultitaskVariationalStrategy over a whitened VariationalStrategy with batch shape `shape`, tasks along
+    `task_dim`: the KL term of the ELBO is the sum over the TASK dimension of the per-GP closed form
+    KL(N(m, LL^T) || N(0, I)) = (tr LL^T + m.m - M - 2 sum log L_ii)/2, one value per remaining batch element:
+    elbo = E_q[log p]/n - KL/N (n = number of points in the call, N = num_data)."""
+    import torch
+    import gpytorch
+    shape, td, n, M = tuple(cfg["shape"]), cfg["task_dim"], cfg["n"], cfg["M"]
+    gen = torch.Generator().manual_seed(rng.getrandbits(30))
+    t = shape[td]
+
+    class MT(gpytorch.models.ApproximateGP):
+        def __init__(self):
+            Z = torch.rand(*shape, M, 1, generator=gen, dtype=torch.float64)
+            dist = gpytorch.variational.CholeskyVariationalDistribution(M, batch_shape=torch.Size(shape))
+            base = gpytorch.variational.VariationalStrategy(self, Z, dist, learn_inducing_locations=True)
+            super().__init__(gpytorch.variational.IndependentMultitaskVariationalStrategy(base, num_tasks=t, task_dim=td))
+            self.mean_module = gpytorch.means.ConstantMean(batch_shape=torch.Size(shape))
+            self.covar_module = gpytorch.kernels.ScaleKernel(gpytorch.kernels.RBFKernel(batch_shape=torch.Size(shape)),
+                                                             batch_shape=torch.Size(shape))
+
+        def forward(self, x):
+            return gpytorch.distributions.MultivariateNormal(self.mean_module(x), self.covar_module(x))
+    model = MT().double()
+    lik = gpytorch.likelihoods.MultitaskGaussianLikelihood(num_tasks=t).double()
+    model.train()
+    lik.train()
+    x = torch.rand(n, 1, generator=gen, dtype=torch.float64)
+    model(x)                                     # first call initialises the variational parameters
+    vd = model.variational_strategy.base_variational_strategy._variational_distribution
+    with torch.no_grad():
+        vd.variational_mean.copy_(torch.randn(*shape, M, generator=gen, dtype=torch.float64))
+        L = torch.tril(0.3 * torch.randn(*shape, M, M, generator=gen, dtype=torch.float64), -1) + \
+            torch.diag_embed(0.4 + torch.rand(*shape, M, generator=gen, dtype=torch.float64))
+        vd.chol_variational_covar.copy_(L)
+    m = vd.variational_mean.detach()
+    kl_each = 0.5 * ((L * L).sum((-1, -2)) + (m * m).sum(-1) - M - 2.0 * torch.log(L.diagonal(dim1=-1, dim2=-2)).sum(-1))
+    kl_ref = kl_each.sum(dim=td)
+    out = model(x)
+    y = torch.randn(*out.batch_shape, n, t, generator=gen, dtype=torch.float64)
+    N = cfg["N"] or n
+    mll = gpytorch.mlls.VariationalELBO(lik, model, num_data=N)
+    val = mll(out, y).detach()
+    ell = lik.expected_log_prob(y, out).detach()
+    while ell.dim() > kl_ref.dim():              # sum over the points (and the task axis when the likelihood keeps it)
+        ell = ell.sum(-1)
+    want = ell / n - kl_ref / N
+    desc = f"task_dim={td} batch={list(shape)}"
+    ctx.case(f"multitask ELBO {desc} n={n} M={M} N={N}", sample={"kind": "multitask-elbo", "cfg": cfg})
+    ok = val.shape == want.shape and bool(((val - want).abs() <= 1e-9 * (1 + want.abs())).all())
+    if not ok:
+        ctx.fail(f"multitask-kl:{'default' if td == -1 else 'nondefault'}-task_dim",
+                 f"IndependentMultitaskVariationalStrategy({desc}): VariationalELBO = {val.tolist()} (shape {list(val.shape)}), "
+                 f"E_q[log p]/n - (sum over the task dimension of the closed-form per-GP KL)/N = {want.tolist()} "
+                 f"(shape {list(want.shape)}); strategy.kl_divergence() = {model.variational_strategy.kl_divergence().tolist()}, "
+                 f"closed form {kl_ref.tolist()}", {"cfg": cfg, "runner": "multitask"})
+
+
 def guarded(ctx, runner, cfg, thunk):
     """One configuration.  An exception of the *real code* on a valid configuration is a failure of the property; a dead
     driver propagates (the caller switches to the specification oracle); any other harness problem is recorded as a
@@ -1407,6 +1478,9 @@ def run_all(ctx, d14, d15):
         cfg["rng_label"] = f"bound:{i}"
         go("bound", cfg, lambda d, c=cfg: (run_bound(ctx, d14, d, c, ctx.rng(c["rng_label"])) if d is not None
                                            else run_bound_py(ctx, d14, c, ctx.rng(c["rng_label"]))))
+    for i, cfg in enumerate(multitask_configs(ctx)):
+        cfg["rng_label"] = f"multitask:{i}"
+        go("multitask", cfg, lambda d, c=cfg: run_multitask(ctx, d14, d, c, ctx.rng(c["rng_label"])))
     for i, cfg in enumerate(batched_configs(ctx)):
         cfg["rng_label"] = f"batched:{i}"
         go("bound_batched", cfg, lambda d, c=cfg: run_bound_batched(ctx, d14, d, c, ctx.rng(c["rng_label"])))
@@ -1470,6 +1544,8 @@ def replay(ctx, payload):
             run_variant(ctx, d14, d15, cfg, rng, replay_only={"evaluation": case.get("evaluation"), "idx": case.get("idx")})
         elif case.get("runner") == "bound_py" or (d15 is None and case.get("runner") == "bound"):
             run_bound_py(ctx, d14, cfg, rng)
+        elif case.get("runner") == "multitask":
+            run_multitask(ctx, d14, d15, cfg, rng)
         elif case.get("runner") == "bound_batched":
             run_bound_batched(ctx, d14, d15, cfg, rng, replay_only=case.get("idx"))
         else:
